@@ -4924,28 +4924,18 @@ bool SoPlexBase<R>::getBasisInverseColReal(int c, R* coef, int* inds, int* ninds
          {
             if(unscale && _solver.isScaled())
             {
-               int scaleExp = -_scaler->getRowScaleExp(index);
+               // the requested column belongs to row c: scale the unit vector (placed at the position of row c in
+               // the row basis) with the scaling factor of row c
+               int scaleExp = _scaler->getRowScaleExp(c);
                DSVectorBase<R> rhs(1);
                rhs.add(index, spxLdexp(1.0, scaleExp));
                _solver.basis().coSolve(x, rhs);
                x.setup();
                int size = x.size();
 
-               // apply scaling based on \tilde{C}
+               // x is indexed by the columns of the LP: unscale it like a primal vector
                for(int i = 0; i < size; i++)
-               {
-                  int idx = bind[x.index(i)];
-
-                  if(idx < 0)
-                  {
-                     idx = -idx - 1;
-                     scaleExp = _scaler->getRowScaleExp(idx);
-                  }
-                  else
-                     scaleExp = - _scaler->getColScaleExp(idx);
-
-                  spxLdexp(x.value(i), scaleExp);
-               }
+                  x.scaleValue(x.index(i), _scaler->getColScaleExp(x.index(i)));
             }
             else
             {
@@ -4973,6 +4963,7 @@ bool SoPlexBase<R>::getBasisInverseColReal(int c, R* coef, int* inds, int* ninds
                assert(idx < numRows());
                assert(!_solver.isRowBasic(idx));
 
+               // in the scaled case x has been unscaled above, so the product with the unscaled row is the result
                if(unscale && _solver.isScaled())
                {
                   DSVectorBase<R> r_unscaled(numCols());
@@ -4981,9 +4972,6 @@ bool SoPlexBase<R>::getBasisInverseColReal(int c, R* coef, int* inds, int* ninds
                }
                else
                   coef[i] = - (_solver.rowVector(idx) * x);
-
-               if(unscale && _solver.isScaled())
-                  coef[i] = spxLdexp(coef[i], _scaler->getRowScaleExp(idx));
             }
             else
             {
@@ -4992,10 +4980,7 @@ bool SoPlexBase<R>::getBasisInverseColReal(int c, R* coef, int* inds, int* ninds
                assert(idx < numCols());
                assert(!_solver.isColBasic(idx));
 
-               if(unscale && _solver.isScaled())
-                  coef[i] = spxLdexp(x[idx], _scaler->getColScaleExp(idx));
-               else
-                  coef[i] = x[idx];
+               coef[i] = x[idx];
             }
          }
       }
